@@ -661,6 +661,8 @@ func checkC19(c *Ctx) {
 	checkNoRuneNarrowing(c, "C19.R9")
 	c.Rule("C19.R10", "every escape the quoting function writes can be read back: besides the constant spellings (C19.R3) a formatted, numeric escape uses only fixed-width hex verbs (%0Nx) and its operand is bounded by 16^N-1 — by its type or by a dominating comparison — because %0N is a minimum width and a wider value would be read back as another character followed by a literal digit")
 	checkEscapeWidths(c, "C19.R10")
+	c.Rule("C19.R11", "a parsed syntax tree is not kept between uses: no field path from the long-lived objects that serve the configuration tools (mcp.Server, app.runtimeState, admin.Server) reaches a syntax-tree type of package config — every format, diff, validate and rewrite works on config.Parse of the bytes it was given, never on a remembered tree that an earlier (previewed or rolled-back) mutation edited in place")
+	checkNoRetainedSyntaxTree(c, "C19.R11")
 }
 
 // ---------------------------------------------------------------------------
